@@ -249,7 +249,7 @@ func (p *parser) parseExpression(rbp int) Node {
 	}
 
 	t := p.token
-	p.advance(false)
+	p.advance(t.Type.opensOperand())
 
 	nud := p.lookupNud(t.Type)
 	if nud == nil {
@@ -278,6 +278,19 @@ func (p *parser) parseExpression(rbp int) Node {
 	}
 
 	return lhs
+}
+
+// opensOperand reports whether a token in prefix position must
+// be followed by an operand: an opening bracket, a unary minus
+// or the opening pipe of a transform. A slash after such a token
+// starts a regular expression; after any other prefix token (a
+// value, a name, a wildcard) it is the division operator.
+func (tt tokenType) opensOperand() bool {
+	switch tt {
+	case typeParenOpen, typeBracketOpen, typeBraceOpen, typeMinus, typePipe:
+		return true
+	}
+	return false
 }
 
 // advance requests the next token from the lexer and updates
